@@ -117,7 +117,7 @@ func toPorcupine(h []HOp) []porcupine.Operation {
 func checkHistory(c *corr.Ctx, cc *ConcCase, where string, budget time.Duration) {
 	h := cc.History
 	v := func(clause, key, detail string) {
-		c.Violate(corr.Violation{Property: "C16", Clause: clause, Key: key, Where: where, Input: cc, Detail: detail})
+		report(c, corr.Violation{Property: "C16", Clause: clause, Key: key, Where: where, Input: cc, Detail: detail})
 	}
 	accepted := map[int]HOp{}
 	refused := map[int]bool{}
@@ -210,6 +210,20 @@ func checkHistory(c *corr.Ctx, cc *ConcCase, where string, budget time.Duration)
 	}
 }
 
+// recoverConc turns a panic inside a worker goroutine into a violation (the run is then abandoned by
+// its time-out if other goroutines depend on the dead one).
+func recoverConc(c *corr.Ctx, cc *ConcCase, wg *sync.WaitGroup, isProducer bool) {
+	if e := recover(); e != nil {
+		sawPanic.Store(true)
+		concMu.Lock()
+		report(c, corr.Violation{Property: "C16", Clause: "queue operations do not panic", Key: "conc-panic", Where: "pkg/ringbuffer", Input: cc,
+			Detail: fmt.Sprintf("panic in a worker goroutine: %v", e)})
+		concMu.Unlock()
+	}
+}
+
+var concMu sync.Mutex
+
 func maybeYield(r *rand.Rand, pct int) {
 	if pct > 0 && r.IntN(100) < pct {
 		if r.IntN(8) == 0 {
@@ -244,6 +258,7 @@ func runConcRing(c *corr.Ctx, cc *ConcCase, budget time.Duration) {
 		allWG.Add(1)
 		go func(p int) {
 			defer allWG.Done()
+			defer recoverConc(c, cc, &prodWG, true)
 			rng := rand.New(rand.NewPCG(cc.Seed, uint64(p+1)))
 			var ops []HOp
 			push := func(k int) {
@@ -278,6 +293,7 @@ func runConcRing(c *corr.Ctx, cc *ConcCase, budget time.Duration) {
 	go func() {
 		defer allWG.Done()
 		defer close(consumerDone)
+		defer recoverConc(c, cc, nil, false)
 		rng := rand.New(rand.NewPCG(cc.Seed, 99))
 		var ops []HOp
 		extra := cc.PostClose
@@ -288,7 +304,7 @@ func runConcRing(c *corr.Ctx, cc *ConcCase, budget time.Duration) {
 			ret := clock.Add(1)
 			op := HOp{Client: cc.Producers, Kind: "pull", OK: ok, Call: call, Ret: ret}
 			if ok {
-				op.ID = v.(int)
+				op.ID, _ = v.(int) // a non-int (nil) value shows up as id 0 = "never pushed"
 				pulledN.Add(1)
 			}
 			ops = append(ops, op)
@@ -340,14 +356,14 @@ func runConcRing(c *corr.Ctx, cc *ConcCase, budget time.Duration) {
 	case <-finished:
 	case <-time.After(12 * time.Second):
 		stuck()
-		c.Violate(corr.Violation{Property: "C16", Clause: "a waiting consumer is always woken by a push or a close", Key: "conc-deadlock",
+		report(c, corr.Violation{Property: "C16", Clause: "a waiting consumer is always woken by a push or a close", Key: "conc-deadlock",
 			Where: "pkg/ringbuffer", Input: cc, Detail: "goroutines still blocked 12 s after the run started"})
 		return
 	}
 	select {
 	case s := <-stuckCh:
 		stuck()
-		c.Violate(corr.Violation{Property: "C16", Clause: "a waiting consumer is always woken by a push", Key: "conc-lost-wakeup", Where: "pkg/ringbuffer", Input: cc, Detail: s})
+		report(c, corr.Violation{Property: "C16", Clause: "a waiting consumer is always woken by a push", Key: "conc-lost-wakeup", Where: "pkg/ringbuffer", Input: cc, Detail: s})
 	default:
 	}
 	sort.Slice(hist, func(i, j int) bool { return hist[i].Call < hist[j].Call })
